@@ -67,6 +67,7 @@ class TU:
         self.path = os.path.join(REPO, relpath)
         if not os.path.exists(self.path):
             raise ExtractionError(f'source file missing: {relpath}')
+        self.scratch = scratch
         defs, incs, self.flagsrc = build_flags(scratch)
         self.cmd = ['clang++', '-fsyntax-only', '-std=c++14', '-w'] + incs + defs + \
                    ['-Xclang', '-ast-dump=json', '-Xclang', '-ast-dump-filter=' + extra_filter, self.path]
